@@ -493,12 +493,22 @@ def cond_str(n: ast.AST) -> str:
     """canonical string of a boolean expression used as a *value* (not split)"""
     if isinstance(n, ast.BoolOp):
         k = 'and' if isinstance(n.op, ast.And) else 'or'
-        return '(' + (' %s ' % k).join(cond_str(v) for v in n.values) + ')'
+        vals = []
+        for v in n.values:              # (A and (B and C)) reads as (A and B and C)
+            if isinstance(v, ast.BoolOp) and type(v.op) is type(n.op):
+                vals.extend(v.values)
+            else:
+                vals.append(v)
+        return '(' + (' %s ' % k).join(cond_str(v) for v in vals) + ')'
     if isinstance(n, ast.UnaryOp) and isinstance(n.op, ast.Not):
         a = n.operand
+        if isinstance(a, ast.UnaryOp) and isinstance(a.op, ast.Not):
+            return cond_str(a.operand)                                  # not not X
         if not isinstance(a, ast.BoolOp):
             return lit_str(_flip(atom_of(a)))
-        return 'not ' + cond_str(a)
+        # De Morgan: negations are pushed down to the literals, so that `not (A and B)` and `not A or not B` read alike
+        dual = ast.Or() if isinstance(a.op, ast.And) else ast.And()
+        return cond_str(ast.BoolOp(op=dual, values=[ast.UnaryOp(op=ast.Not(), operand=v) for v in a.values]))
     if isinstance(n, ast.Compare) and len(n.ops) > 1:
         parts = []
         l = n.left
